@@ -193,3 +193,14 @@ Theorem C05_src_log_observed : forall (nb : Z) (p : Q) (s : nat -> R) (l : list 
   map (fun r => (m_iter r, m_memoryless r, m_flag r)) log = mstep_obs nb l.
 Proof. exact src_log_obs. Qed.
 Print Assumptions C05_src_log_observed.
+
+(** The unrolled form on the run: with m = nb + 1 the first iteration kept, the (m+d)-th maximisation of the run program is
+    handed a convex combination (weights >= 0, sum 1) of the statistics computed at iterations m .. m+d. *)
+Theorem C05_src_run_unrolled : forall (e : env) (nb : Z) (p : Q) (s : nat -> R) (m d : nat),
+  Z.of_nat m = (nb + 1)%Z -> 1 <= m -> m + d <= e_niter e -> (0 < Q2R p)%R ->
+  exists log r,
+    src_log nb p s (unfold e fit_prog) = Some log /\ nth_error log (m + d - 1) = Some r /\ m_iter r = m + d
+    /\ m_stat r = dot (weights nb (Q2R p) m d) (map s (seq m (S d)))
+    /\ sumR (weights nb (Q2R p) m d) = 1%R /\ Forall (fun w => (0 <= w)%R) (weights nb (Q2R p) m d).
+Proof. exact src_run_unrolled. Qed.
+Print Assumptions C05_src_run_unrolled.
